@@ -14,7 +14,7 @@ import re
 
 from facts import AnalysisBroken
 from prog import walk, kids, short, access_kind
-from rules.common import strip_casts, const_of, guard_facts, written_value, all_guards
+from rules.common import strip_casts, const_of, guard_facts, written_value, all_guards, counting_for
 from rules.effects import canon, summaries
 
 LEVEL = 'other'
@@ -94,10 +94,24 @@ def check(ctx):
     ok = _list_loop(mp, find='from', repl='to')
     ctx.ob('C02.R1.list-move', 'move_piece', ok, 'the piece list entry equal to `from` is replaced by `to`', site=mp.loc())
     rp = prim['remove_piece']
-    ok = _list_loop(rp, find='square', repl='_piece_position[piece][pos]') and \
-        any(n['k'] == 'VarDecl' and n.get('name') == 'pos' and canon(rp, kids(n)[0], inline=False) == '(_piece_count[piece]-1)'
-            for n in rp.all_nodes())
-    ctx.ob('C02.R1.list-remove', 'remove_piece', ok,
+    from rules.norm import Norm as _Nm
+    ok = _list_loop(rp, find='square', repl='_piece_position[piece][(_piece_count[piece]-1)]')
+    # ... and the count drops by one afterwards
+    cw = [n for g, n, k in p.field_accesses(POS, '_piece_count') if g is rp and k in ('write', 'rmw')]
+    dec = False
+    for w in cw:
+        par = rp.parent(w)
+        while par is not None and par['k'] in ('ArraySubscriptExpr', 'ImplicitCastExpr'):
+            par = rp.parent(par)
+        if par is None:
+            continue
+        if par['k'] == 'CompoundAssignOperator' and par.get('op') == '-=' and const_of(strip_casts(kids(par)[1])) == 1:
+            dec = True
+        if par['k'] == 'UnaryOperator' and par.get('op') == '--':
+            dec = True
+        if par['k'] == 'BinaryOperator' and par.get('op') == '=' and _Nm(rp, keep=('piece',)).s(kids(par)[1]) == '(_piece_count[piece]-1)':
+            dec = True
+    ctx.ob('C02.R1.list-remove', 'remove_piece', ok and dec and len(cw) == 1,
            'the removed square\'s list slot is overwritten by the last entry, then the count drops by one', site=rp.loc())
 
     # ---- R2 half-move clock -----------------------------------------------------------------------------------
@@ -296,15 +310,26 @@ def _same_effect(got, want):
 
 
 def _list_loop(f, find, repl):
-    for n in f.all_nodes():
-        if n['k'] == 'IfStmt':
-            c = canon(f, kids(n)[0], inline=False).replace(' ', '')
-            if c == '(_piece_position[piece][i]==%s)' % find:
-                for x in walk(kids(n)[1]):
-                    if x['k'] == 'BinaryOperator' and x.get('op') == '=' and \
-                            canon(f, kids(x)[0], inline=False).replace(' ', '') == '_piece_position[piece][i]' and \
-                            canon(f, kids(x)[1], inline=False).replace(' ', '') == repl:
-                        return True
+    """an index loop over the piece list that, at the entry equal to `find`, stores `repl` (compared as normal forms, so named
+    locals for the last index etc. do not matter). A list maintained in another way (iterators, std::find) is not recognised."""
+    from rules.norm import Norm
+    nm = Norm(f, keep=('piece',))
+    loops = [n for n in f.all_nodes() if n['k'] == 'ForStmt' and any(short(x.get('ref', {}).get('n', '')) == '_piece_position' for x in walk(n['ch'][4]))]
+    if not loops:
+        raise AnalysisBroken('%s: the piece list is maintained in a form the rule does not know (no index loop over _piece_position)' % f.name)
+    for lp in loops:
+        cf = counting_for(f, lp)
+        if not cf:
+            continue
+        iv = next(x['name'] for x in f.all_nodes() if x['k'] == 'VarDecl' and x.get('id') == cf[0])
+        for n in walk(lp['ch'][4]):
+            if n['k'] == 'IfStmt':
+                g = nm.conj(kids(n)[0])
+                if g == frozenset({('eq',) + tuple(sorted(['_piece_position[piece][%s]' % iv, find]))}):
+                    for x in walk(kids(n)[1]):
+                        if x['k'] == 'BinaryOperator' and x.get('op') == '=' and \
+                                Norm(f, inline=False).s(kids(x)[0]) == '_piece_position[piece][%s]' % iv and nm.s(kids(x)[1]) == repl:
+                            return True
     return False
 
 
